@@ -424,11 +424,17 @@ func (c *Client) sendWithWriter(writer io.Writer, packet []byte) error {
 
 // Loop: Receive data from server
 func (c *Client) recv(keepaliveQuit chan<- struct{}) {
-	defer close(keepaliveQuit)
+	// The keepalive of this session is stopped as soon as the session is over, before the loss is reported:
+	// the handlers may connect again at once (StreamManager does), and a keepalive of the session that
+	// ended must not write on the next connection.
+	var stopOnce sync.Once
+	stopKeepalive := func() { stopOnce.Do(func() { close(keepaliveQuit) }) }
+	defer stopKeepalive()
 
 	for {
 		val, err := stanza.NextPacket(c.transport.GetDecoder())
 		if err != nil {
+			stopKeepalive()
 			c.ErrorHandler(err)
 			c.disconnected(c.Session.SMState)
 			return
@@ -455,6 +461,7 @@ func (c *Client) recv(keepaliveQuit chan<- struct{}) {
 			// TCP messages should arrive in order, so we can expect to get nothing more after this occurs
 			c.transport.ReceivedStreamClose()
 			// The stream is over, whoever closed it first: the session is disconnected
+			stopKeepalive()
 			c.disconnected(c.Session.SMState)
 			return
 		case stanza.Message, stanza.Presence, *stanza.IQ:
